@@ -190,6 +190,13 @@ def depth1():
     for f in UNARY + AGGS:
         for a in cols:
             out.append(f.format(a=a))
+    # a literal next to a column, in both orders: literals are classified apart from typed operands when types are merged
+    lits = ["1", "2.5", "'7'", "'2020-01-01'", "NULL", "TRUE"]
+    for a, b in list(itertools.product(cols, lits)) + list(itertools.product(lits, cols)):
+        for op in BIN_OPS:
+            out.append(f"{a} {op} {b}")
+        for f in BIN_FUNCS:
+            out.append(f.format(a=a, b=b))
     seen, uniq = set(), []
     for e in out:
         if e not in seen:
@@ -229,7 +236,11 @@ def run_shard(spec, seed, res, only_bucket=None):
         for i, e in enumerate(depth1()):
             if i % spec["parts"] == spec["part"]:
                 for b, d in check_expr(e, res):
-                    res.fail(b, {"expr": e}, d)
+                    # the depth-1 table is enumerated, not sampled: its cells are keyed by the expression itself and need one hit, so
+                    # a change of what ONE expression infers is reported even if its coarse (class, inferred, engine) cell is catalogued
+                    b = f"d1|{b}|{e}"
+                    if only_bucket is None or b == only_bucket:
+                        res.fail(b, {"expr": e, "d1": True}, d)
         res.extra["depth1_expressions"] = len(depth1()) if spec["part"] == 0 else 0
         if res.evaluations and res.classes["noclaim"] > 0.05 * res.evaluations:
             # "no claim" must stay the exception: an annotator that answers UNKNOWN everywhere would otherwise pass vacuously
@@ -240,6 +251,8 @@ def run_shard(spec, seed, res, only_bucket=None):
 
 
 def replay(case):
+    if case.get("d1"):
+        return [(f"d1|{b}|{case['expr']}", d) for b, d in check_expr(case["expr"], None)]
     return check_expr(case["expr"], None)
 
 
@@ -248,6 +261,8 @@ def frequency_floor(bucket, evaluations=0):
     randomly nested stream keeps producing ill-typed operand combinations that DuckDB coerces in yet another way at rates of 1e-5
     (two 240k-case campaigns still differed in ~30 single-digit cells), while the exhaustive depth-1 table is stable and every seeded
     inference defect shows up there with dozens of hits."""
+    if bucket.startswith("d1|"):
+        return 1
     return max(3, int(evaluations * 2e-4))
 
 
